@@ -3,6 +3,7 @@ import Driver.StreamDrv
 import Driver.StoreDrv
 import Driver.ResumeDrv
 import Driver.IrcDrv
+import Driver.FsmDrv
 /-! `driver <component>` reads one operation per line on stdin, prints one line per operation. -/
 
 partial def loopStateless (h : IO.FS.Stream) (out : IO.FS.Stream) (f : String → String) : IO Unit := do
@@ -27,6 +28,7 @@ def main (args : List String) : IO UInt32 := do
   | ["time"] => loopStateless stdin stdout Driver.TimeDrv.step; stdout.flush; return 0
   | ["codec"] => loopStateless stdin stdout Driver.StreamDrv.codecStep; stdout.flush; return 0
   | ["stream"] => loopState stdin stdout Driver.StreamDrv.streamStep Driver.StreamDrv.SState.init; stdout.flush; return 0
+  | ["fsm"] => loopState stdin stdout Driver.FsmDrv.step ({} : Robust.Fsm.Node); stdout.flush; return 0
   | ["irc"] => loopState stdin stdout Driver.IrcDrv.step Driver.IrcDrv.init; stdout.flush; return 0
   | ["resume"] => loopStateless stdin stdout Driver.ResumeDrv.step; stdout.flush; return 0
   | ["store"] => loopState stdin stdout Driver.StoreDrv.step (Robust.Store.Store.empty false); stdout.flush; return 0
